@@ -6,7 +6,8 @@ From Coq Require Import List Arith Bool ZArith String Lia PeanoNat.
 Import ListNotations.
 From BT.Base Require Import Bits BitsProofs BytesProofs.
 From BT.Layout Require Import Model BuildProofs RoundTrip RecordProofs SizeProofs FillProofs FillBuild.
-From BT.Tracer Require Import Model Decode Lemmas Spec BoundsProofs Chain Holes.
+From BT.Layout Require Import PosProofs.
+From BT.Tracer Require Import Model Decode RecordDecode Lemmas Spec BoundsProofs Chain Holes.
 
 (* observable part of a log for this file: packets handed over and discards *)
 Definition is_obs (e : ev) : bool := match e with EPacket _ _ | EDisc => true | _ => false end.
@@ -71,6 +72,14 @@ Section Hist.
 
   Definition seqn (n : nat) : nat := if has_member (d_pc d) "packet_seq_num" then n else 0.
 
+  (* values of the event record header members *)
+  Definition hdr_vals (e : ertm) (ts : Z) : list val :=
+    match d_eh d with Some s => eh_vals (s_mems s) (e_id e) ts | None => [] end.
+  (* the event record a tracing call must leave in the stream *)
+  Definition rec_spec (e : ertm) (ts : Z) (cv sv pv : list val) : rcd :=
+    (Z.of_nat (e_id e),
+     [canon_o (d_eh d) (hdr_vals e ts); canon_o (d_cc d) cv; canon_o (e_sc e) sv; canon_o (e_p e) pv]).
+
   (* static well-formedness of the data stream type *)
   Record wf_d : Prop := {
     wf_ph : wf_osft (d_ph d) = true;
@@ -82,8 +91,12 @@ Section Hist.
     wf_cs : exists al, In ("content_size"%string, FInt false cs_size al) pcms;
     wf_phv : ok_opt (d_ph d) (d_ph_vals d);
     wf_pcv : forall fv psize seq ts, members_ok_skip pc_skips fv [] pcms (pc_vals pcms psize seq ts user);
-    wf_ehv : forall e ts, In e (d_erts d) ->
-               ok_opt (d_eh d) (match d_eh d with Some s => eh_vals (s_mems s) (e_id e) ts | None => [] end);
+    wf_ehv : forall e ts, In e (d_erts d) -> ok_opt (d_eh d) (hdr_vals e ts);
+    (* the reader finds the event record type ID in the header (or there is a single type, ID 0) *)
+    wf_hid : forall e ts, In e (d_erts d) -> header_id (d_eh d) (hdr_vals e ts) = Z.of_nat (e_id e);
+    (* every event record occupies at least one bit (S13 in DESIGN.md) *)
+    wf_pos : forallb (fun e => pos_o (d_eh d) || pos_o (d_cc d) || pos_o (e_sc e) || pos_o (e_p e))
+                     (d_erts d) = true;
   }.
 
   (* header + context of the open packet, as any later reader will see them *)
@@ -137,6 +150,16 @@ Section Hist.
     c_s c' = c_s c -> c_psize c' = c_psize c -> c_off_content c' = c_off_content c ->
     c_seq c' = c_seq c -> c_saved c' = c_saved c -> hdr_ctx_ok c tsb hs -> hdr_ctx_ok c' tsb hs.
   Proof. unfold hdr_ctx_ok. intros -> -> -> -> ->. auto. Qed.
+
+  Lemma hdr_ctx_ok_frame c c' tsb hs :
+    (forall p, p < c_off_content c -> get (c_s c') p = get (c_s c) p) ->
+    c_psize c' = c_psize c -> c_off_content c' = c_off_content c ->
+    c_seq c' = c_seq c -> c_saved c' = c_saved c -> hdr_ctx_ok c tsb hs -> hdr_ctx_ok c' tsb hs.
+  Proof.
+    unfold hdr_ctx_ok. intros Hs -> -> -> -> (A & B & C & D & E & F). repeat split; auto.
+    intros fv s_fin lim' Hl Hout Hin. apply F; auto.
+    intros p Hp Hnh. rewrite Hout by auto. apply Hs. exact Hp.
+  Qed.
 
   Lemma HI_core w w' K cur : same_core w w' -> HI w K cur -> HI w' K cur.
   Proof.
